@@ -45,5 +45,18 @@ Section SetOps.
   Definition set_project (kids : list kid) (part : list (nat * nat)) (sh : nat * nat) (s : list A) : list (list A) :=
     let S := reshape (fst sh) (snd sh) s in
     concat (map (fun di => k_project (fst di) (rslice (fst (snd di)) (snd (snd di)) S)) (combine kids part)).
+
+  (* ---- multi-flow adaptor: what it sees of the wrapped device ------------------------------------------------------------------ *)
+  Record wdev := {
+    w_cost : list A -> list A -> A; w_deriv : list A -> list A -> list A; w_hess : list A -> list A -> list (list A);
+    w_project : list A -> list A }.
+  Definition mmul (S P : list (list A)) : list (list A) := map2 vmul S P.          (* s * p on matrices *)
+  Definition msumall (M : list (list A)) : A := vsum (map vsum M).                 (* M.sum() *)
+  (* MFDeviceSet.__init__: rejected, and the bounds of every conduit, from the wrapped device's lbounds / hbounds *)
+  Definition mf_ctor_rejects (k : nat) (lb hb : list A) : bool :=
+    Nat.eqb k 0 || (existsb (fun x => x <? n0) lb && existsb (fun x => n0 <? x) hb).
+  Definition mf_conduit_bounds (lb hb : list A) : list (A * A) :=
+    if existsb (fun x => x <? n0) lb then combine lb (zeros (length lb)) else combine (zeros (length lb)) hb.
 End SetOps.
 Arguments kid A : clear implicits.
+Arguments wdev A : clear implicits.
